@@ -264,7 +264,7 @@ def finish(prop, tier, seed, jobs, outs, t0, level_rule, nontrivial, extra=None,
     ev = {'property_id': prop, 'tier': tier, 'seed': seed, 'level': 'model_checking', 'coverage': cov,
           'assumptions': assumptions or [], 'wall_s': round(time.time() - t0, 2),
           'violations': len(reported)}
-    evdir = os.path.join(EVID_DIR, 'partial') if PARTIAL else EVID_DIR
+    evdir = os.path.join(_OUT, 'sweep', 'partial') if PARTIAL else EVID_DIR
     os.makedirs(evdir, exist_ok=True)
     with open(os.path.join(evdir, f'{prop}.json'), 'w') as f:
         json.dump(ev, f, indent=1, default=str)
